@@ -29,6 +29,7 @@ from sqlalchemy import (
     String,
     Table,
     Text,
+    TypeDecorator,
     and_,
     bindparam,
     case,
@@ -286,7 +287,36 @@ def sel_src(t, selectable):
     return (t, lambda n, s=selectable: s.c[n])
 
 
-TYPES = {"i": Integer, "s": String, "I": BigInteger, "t": Text}
+class DeltaInt(TypeDecorator):
+    """integer type with a bind processor that depends on a constructor argument
+    (part of the cache key through cache_ok): value + delta is what reaches the cursor"""
+
+    impl = Integer
+    cache_ok = True
+
+    def __init__(self, delta=1):
+        super().__init__()
+        self.delta = delta
+
+    def process_bind_param(self, value, dialect):
+        return None if value is None else value + self.delta
+
+    def process_literal_param(self, value, dialect):
+        return "NULL" if value is None else str(value + self.delta)
+
+
+class NoCacheInt(TypeDecorator):
+    """a type that opts out of caching: statements using it have no cache key"""
+
+    impl = Integer
+    cache_ok = False
+
+    def process_bind_param(self, value, dialect):
+        return value
+
+
+TYPES = {"i": Integer, "s": String, "I": BigInteger, "t": Text, "D1": DeltaInt(1), "D2": DeltaInt(2), "N": NoCacheInt()}
+_TYPE_CYCLE = {"i": "I", "I": "D1", "D1": "D2", "D2": "N", "N": "i", "s": "t", "t": "s"}
 CMP = {
     "==": lambda a, b: a == b,
     "!=": lambda a, b: a != b,
@@ -410,7 +440,7 @@ _ilitx = st.one_of(
     _ilit, _ilit, _ilit,
     st.tuples(st.just("lx"), _base).map(list),
     st.tuples(st.just("bp"), _base).map(list),
-    st.tuples(st.just("lt"), _base, st.sampled_from(["i", "I"])).map(list),
+    st.tuples(st.just("lt"), _base, st.sampled_from(["i", "I", "D1", "D2", "N"])).map(list),
 )
 
 
@@ -528,6 +558,7 @@ def select_desc(draw, depth=1, allow_wrap=True, orm=None):
         "wrap": None,
         "agg": None,
         "setop": None,
+        "xopt": draw(st.sampled_from([None, None, None, "nocache", "yield", "populate"])),
     }
     shape = draw(st.sampled_from(["cols", "cols", "ent", "agg"]))
     if shape == "ent":
@@ -610,7 +641,7 @@ def stmt_desc(depth=1):
 SEL_TOGGLES = [
     "distinct", "outer0", "full0", "label0", "limit", "offset", "for_update", "prefix", "col_order", "label_style",
     "lit_type", "cast_type", "literal_execute", "where_drop", "order_desc", "op_flip", "in_neg", "wrap_name", "setop_op",
-    "join_drop", "loader", "opt_drop", "total", "wlc_flag", "having_op", "agg_fn", "where_dup",
+    "join_drop", "loader", "opt_drop", "total", "wlc_flag", "having_op", "agg_fn", "where_dup", "xopt",
 ]
 DML_TOGGLES = ["ret", "ret_more", "pcols_more", "many", "val_drop", "where_drop", "op_flip", "lit_type", "in_neg", "sync", "sval", "literal_execute"]
 
@@ -685,7 +716,7 @@ def _toggle(d, name):
                 n[:] = ["lt", n[1], "I"]
                 return True
             if n[0] == "lt":
-                n[2] = {"i": "I", "I": "i", "s": "t", "t": "s"}[n[2]]
+                n[2] = _TYPE_CYCLE[n[2]]
                 return True
             if n[0] == "ls":
                 n[:] = ["lt", n[1], "t"]
@@ -751,6 +782,10 @@ def _toggle(d, name):
             if o["o"] == "wlc":
                 o["aliases"] = not o["aliases"]
                 break
+    elif name == "xopt":
+        if "xopt" in d:
+            order = [None, "nocache", "yield", "populate"]
+            d["xopt"] = order[(order.index(d["xopt"]) + 1) % 4]
     elif name == "having_op":
         if d.get("agg") and d["agg"]["having"]:
             d["agg"]["having"][0] = _FLIP[d["agg"]["having"][0]]
@@ -1003,7 +1038,18 @@ def _build_option(o, ent_t, env):
 WRAP_NAMES = ["w0", "w1"]
 
 
+XOPTS = {"nocache": {"compiled_cache": None}, "yield": {"yield_per": 2}, "populate": {"populate_existing": True}}
+
+
 def _build_select(d, order):
+    b = _build_select_inner(d, order)
+    x = d.get("xopt")
+    if x:
+        b.stmt = b.stmt.execution_options(**XOPTS[x])
+    return b
+
+
+def _build_select_inner(d, order):
     params = {}
     stmt, env, scope, unique = _core_select(d, order, params)
     orm = bool(d["orm"])
